@@ -4,8 +4,10 @@ from .core import core_check
 
 def _disabled_sessions(chk):
     """the second half of C06: when the session is not active (disable flag, CI, xdist, xfail) snapshot(v) is v"""
-    from .. import config_replay, identity_replay, pool, session_driver, tlc
+    from .. import config_replay, identity_replay, pool, reeval_replay, session_driver, tlc
     from ..checklib import MachineryError
+    # repeated evaluation of one call with dynamic parts: every answer is that of the plain value (ISReEval)
+    reeval_replay.run(chk, stride=16 if chk.quick else 2)
     stride = 9000 if chk.quick else 600
     res = tlc.run_tlc("MC_Config", "Config.cfg", overrides={"Mode": "emit", "Stride": stride, "Offset": chk.seed % stride}, timeout=600)
     chk.add_tlc(res, "emit Config (for the identity clause)")
